@@ -284,7 +284,7 @@ func execSPlan(t *testing.T, p *SPlan, res *verifsim.Result, after func(ev []ver
 				// function doing the work is the real one.
 				st.round, st.phase = r, "dial"
 				var err error
-				restore, err = d.setAutoconf()
+				restore, err = stubSetAutoconf(d)
 				st.round = nil
 				if err != nil {
 					// real dial() returns here (without closing its socket: a
@@ -295,24 +295,25 @@ func execSPlan(t *testing.T, p *SPlan, res *verifsim.Result, after func(ev []ver
 				}
 			}
 			lg.Add(verifsim.Event{K: "dial.exit", Gen: g})
-			return &DialContext{
+			dc := &DialContext{
 				Conn:      stubConn{},
 				Interface: &net.Interface{Index: 2, Name: "eth0", MTU: 1500},
 				IP:        netip.MustParseAddr("fe80::1"),
-				done: func() error {
-					lg.Add(verifsim.Event{K: "close", Gen: g})
-					if restore != nil {
-						st.round, st.phase = r, "close"
-						err := restore()
-						st.round = nil
-						if err != nil {
-							lg.Add(verifsim.Event{K: "restore.err", Gen: g, Err: err.Error()})
-						}
-						return err
+			}
+			stubSetDone(dc, func() error {
+				lg.Add(verifsim.Event{K: "close", Gen: g})
+				if restore != nil {
+					st.round, st.phase = r, "close"
+					err := restore()
+					st.round = nil
+					if err != nil {
+						lg.Add(verifsim.Event{K: "restore.err", Gen: g, Err: err.Error()})
 					}
-					return nil
-				},
-			}, nil
+					return err
+				}
+				return nil
+			})
+			return dc, nil
 		}
 		if SimRealDial {
 			// The real dial(), dialNDP(), lookupInterface(), checkInterface()
